@@ -3,7 +3,7 @@ CONSTANTS
   ErrKinds = {"none", "e3", "ei"}
   PayloadCounts = {0, 1, 3}
   Kits = {"lean", "rich"}
-  Profiles = {"A", "B", "D"}
+  Profiles = {"A", "B", "D", "E"}
   MaxLen = 1
   MaxDev = 1
   RunChecker = TRUE
